@@ -97,6 +97,12 @@ impl Track {
 	}
 
 	pub fn should_be_removed(&self) -> bool {
+		// the removal flag is read first: everything the owner of the handle
+		// added to this track before dropping the handle is visible to the
+		// checks below
+		if !self.shared().is_marked_for_removal() {
+			return false;
+		}
 		// child tracks that were added but not picked up yet keep this track alive too
 		if self.sub_tracks.has_pending()
 			|| self
@@ -107,11 +113,9 @@ impl Track {
 			return false;
 		}
 		if self.persist_until_sounds_finish {
-			self.shared().is_marked_for_removal()
-				&& self.sounds.is_empty()
-				&& !self.sounds.has_pending()
+			self.sounds.is_empty() && !self.sounds.has_pending()
 		} else {
-			self.shared().is_marked_for_removal()
+			true
 		}
 	}
 
